@@ -3,19 +3,83 @@
 Writer facets (Nnearests / cutoffneighbors / cutoffneighbors_particletype): the written text file is parsed by an
 own parser and compared with an independent minimum-image reference (fractional rounding, contract of C02) under
 the interval/ambiguity rule; crisp facet: integer coordinates in power-of-two boxes, everything exact, boundary
-inclusive.  Reader facet: Hypothesis rule-based state machine over open files (library-written and synthetic).
+inclusive.  Reader facets: Hypothesis rule-based state machine over open files (library-written and synthetic) and a
+sequential bulk reader over synthetic files at the size boundaries.
 
 Preconditions imposed on generated inputs (each is what real callers satisfy):
   * no two particles coincide modulo the periodic lattice (calculate_neighbors.py drops "the first after sorting"
     as the centre itself, L66-70 / L128-131 / L199-200) — enforced by `assume` on the reference distances;
   * type ids exactly 1..K, all present, identical in all frames (cutoffneighbors_particletype builds its cut-off
-    table from frame 0, L181-187); cut-off matrices are float K x K with positive entries;
+    table from frame 0, L181-187); cut-off matrices are K x K numpy arrays (a nested list is rejected by the routine:
+    IOError, probed) with positive entries;
   * N_nn <= N-1 (that many other particles exist); cut-offs below half the shortest periodic box edge;
   * reader: well-formed files only (header + nparticle rows per frame, ids a permutation of 1..nparticle, cn equal to
-    the number of entries), Nmax >= 1, never reading past the last frame.
+    the number of entries), Nmax >= 1, never reading past the last frame.  Text variants the unchanged reader accepts
+    (probed): LF or CRLF line ends (handle opened with the default newline translation or with newline=''), blanks or
+    tabs between fields, leading / trailing blanks, an unterminated last line, blank lines AFTER the last frame.
+
+CLAUSES (statement / quantifier split into axes; facet.assertion that decides each; populated class tags)
+-----------------------------------------------------------------------------------------------------------------------
+ clause / axis                                decided by                                        classes (evidence tags)
+-----------------------------------------------------------------------------------------------------------------------
+ S1 N-nearest list = exactly the N closest    check_writer kind nn: cn == N for every id,       w-nn; Nnn=1 / Nnn-mid / Nnn=N-1 (largest
+    OTHER particles                           neigh.nearest_ok (no unlisted particle definitely accepted) / Nnn-boundary-31..129;
+                                              closer than a listed one, ambiguity 1e-9*scale);  N=2, N<=8 .. N>=150, size-boundary-*;
+                                              crisp: exact rational distances                   style-clusters / -void / -slab / -droplet
+ S2 global cut-off list = exactly the pairs   check_writer kind cut: neigh.cutoff_classes       w-cut; cn-varies / cn-uniform, some-cn0,
+    with d <= r_cut, boundary inclusive       (definitely in / out; ambiguous may go either     frame-all-empty, all-pairs-listed,
+                                              way); crisp: d^2 <= r^2 exact, pair ON the        maxcn>=32/64/128; on-boundary, just-outside,
+                                              boundary must be listed                           rcut=5; rc-int / rc-np.int64 / rc-np.float64
+ S3 type-pair cut-off: row = centre type,     check_writer kind type: rc[i,j] = M[t_i-1,t_j-1]  w-type; K1..K5; matrix-asym / matrix-sym;
+    column = neighbour type                   same classes; crisp exact                         rcm-int64 / -float32 / -fortran / -strided;
+                                                                                                types-int32 / -uint32 / -uint8
+ S4 ordered by increasing minimum-image       neigh.order_ok on every list (ambiguity rule);    tie-pairs, exact-order-tie, ambiguous
+    distance                                  crisp: exact d^2 non-decreasing
+ S5 never the particle itself, ids 1-based,   parse_written: id in 1..N once, cn == len, no     every writer case (all facets)
+    every id once, cn = length                self, no duplicate
+ S6 global cut-off relation symmetric         check_writer kind cut: listed ^ listed.T only     w-cut (all), crisp cut
+                                              on ambiguous pairs
+ S7 minimum image for every cell and mask     reference = fractional rounding for the frame's   ortho / tri / general (axis-permuted tilted
+                                              OWN cell; positions also outside the cell         cell); mask-full / -partial / -open; sheared;
+                                                                                                offs-inside / -near / -far3 / -far8 / -far50
+ S8 file: one header per frame, frames in     parse_written (T frames of 1 + N lines, header    frames1..4, frames-boundary-31..129
+    order without gap                         tokens id cn neighborlist)
+ R1 reader: per particle id, cn then 0-based  compare_read vs neigh.reader_model (row of id k    syn-*-shuffled / -ordered; neighbor-read /
+    indices (weights verbatim), id-indexed    at index k-1; -1 shift for neighbour lists only;  weight-read; cn0-rows; rows-boundary-*
+    rows                                      integer dtype / float dtype)
+ R2 zero-padded to the largest cn,            width 1 + min(max cn, Nmax); cn column min(cn,    truncated / Nmax=maxcn / Nmax>maxcn /
+    truncated to the requested maximum        Nmax); padding exactly 0                          default-Nmax; cn-boundary-127..258 with
+                                                                                                Nmax 128 / 199..201 / 256; Nmax=1
+ R3 consecutive frames delivered in order     reader_machine (frame pointer model, reopen,      frame>=2-read, interleaved, reopen,
+    from one open file                        rest of the text after k reads, two handles);     rest-checked-*; frames-boundary-*,
+                                              reader_bulk (all F frames in sequence, F up to    eol-crlf / tail-blank-lines / sep-tab /
+                                              129, text variants); read_back of every written   no-final-newline / newline-untranslated
+                                              file
+ R4 results handed out earlier stay what      reader_machine invariant + reader_bulk: every     kept-results-rechecked
+    they were                                 returned array re-compared bit-for-bit with the
+                                              copy taken at return, after all later reads
+ Q1 argument representations (same values)    call_writer / make_snapshots apply case["rep"]    ppp-list/-tuple/-bool/-int32; N-np.int64/
+                                                                                                -np.int32; fn-custom / fn-subdir /
+                                                                                                default-args; pos-int64/-int32, cell-int64
+                                                                                                (crisp); types-*; rc-*, rcm-*
+ Q2 histories on the writers (state carried   run_writer: an earlier call with other contents   prior-other-object, prior-same-object-inplace
+    between calls)                            (other object, or the SAME snapshot arrays
+                                              mutated in place) must not influence the result;
+                                              the earlier file must stay as written
+-----------------------------------------------------------------------------------------------------------------------
+Round-3 audit: weak before = sizes (N <= 40 except seeded homogeneous gases for Nnearests; no block-size boundaries for any
+size axis: particles, frames per file, rows per frame, entries per row); inhomogeneous large systems (none for the cut-off
+writers, none at all with clusters / voids / free surfaces); unwrapped coordinates (|image offset| <= 1); cells (no general
+/ axis-permuted tilted cell); K <= 3; float64 / int64 arrays only (no int32 / uint32 / uint8 labels, no integer positions,
+cell, r_cut, matrix, no list / tuple / bool masks); fnfile never varied (flag audit); writers never called twice in a case;
+reader results compared and discarded at once; LF-only files.  All have classes now.
+Deliberately not asserted: behaviour at EOF / on malformed files / blank lines BETWEEN frames (rejected by the unchanged
+reader), coincident particles, N_nn >= N, zero-particle frames (the reader raises on an empty frame), float32 positions
+(the routine subtracts in float32: the oracle tolerance would have to be 1e-6), int32 specifically as the returned dtype.
 """
 from __future__ import annotations
 
+import dataclasses
 import os
 
 import numpy as np
@@ -33,16 +97,24 @@ from PyMatterSim.neighbors.calculate_neighbors import Nnearests, cutoffneighbors
 from PyMatterSim.neighbors.read_neighbors import read_neighbors
 from PyMatterSim.reader.reader_utils import Snapshots
 
-RULE = ("writers: generated configurations (gas / lattice with and without jitter / clusters; 2D,3D; orthogonal and "
-        "LAMMPS-triclinic cells; all periodicity masks; positions also outside the box; N 3..40, plus seeded gases of "
-        "150..400 particles for the partition index; 1..4 frames, also sheared: per-frame tilt factors) x "
-        "{N_nn 1..N-1 | global r_cut in a gap of the reference distances | K x K type-pair matrix, not symmetric}; "
-        "crisp: integer coordinates, power-of-two cells, integer cut-offs with planted Pythagorean pairs exactly at, "
-        "just inside and just outside the cut-off. reader: histories of read / reopen / read-rest over 1-2 open "
-        "files of 1..4 frames. non-trivial: writers = some list holds >= 2 neighbours and (cut-off kinds) the "
-        "coordination numbers differ within a frame; crisp = a pair sits exactly on the boundary (cut-off kinds) or "
-        "an exact distance tie occurs (N-nearest); reader history = coordination numbers differ within a read frame "
-        "and some read is truncated by Nmax and >= 2 consecutive frames are read from one handle")
+RULE = ("writers: generated configurations (gas / lattice with and without jitter / clusters; 2D,3D; orthogonal, "
+        "LAMMPS-triclinic and axis-permuted tilted cells; all periodicity masks; positions inside the cell, one image "
+        "outside, or unwrapped up to 3 / 8 / 50 cells away; N 1..40, plus seeded gases of 150..400 particles for the "
+        "partition index, size boundaries N = 31..33, 49..51, 63..65, 99..101, 127..130, 199..201, 255..258 (thorough: "
+        "499..501, 511..513, 999..1001, 1023..1025), 31..129 frames per file, and inhomogeneous systems of 150..400 "
+        "particles: clusters in a dilute background, voids, slabs and droplets with free surfaces; 1..4 frames, also "
+        "sheared: per-frame tilt factors) x {N_nn 1..N-1 | global r_cut in a gap of the reference distances | K x K "
+        "type-pair matrix, K 1..5, not symmetric} x argument representations (mask as list / tuple / bool / int32, N as "
+        "numpy integer, labels int32 / uint32 / uint8, integer r_cut / matrix where integral, Fortran / strided matrix, "
+        "output file name) x an earlier call with other contents; crisp: integer coordinates (also as int64 / int32 "
+        "arrays), power-of-two cells (also int64), integer cut-offs with planted Pythagorean pairs exactly at, just "
+        "inside and just outside the cut-off. reader: histories of read / reopen / read-rest over 1-2 open files of "
+        "1..4 frames; bulk sequential reads of synthetic files with rows / frames / entries per row at the size "
+        "boundaries, LF / CRLF, tabs, blank tail. non-trivial: writers = some list holds >= 2 neighbours and (cut-off "
+        "kinds) the coordination numbers differ within a frame; crisp = a pair sits exactly on the boundary (cut-off "
+        "kinds) or an exact distance tie occurs (N-nearest); reader history = coordination numbers differ within a "
+        "read frame and some read is truncated by Nmax and >= 2 consecutive frames are read from one handle; "
+        "reader_bulk = cn differ within a frame and >= 2 frames read")
 ASSUMPTIONS = [
     "minimum image = fractional rounding (contract of C02); on half-cell ties either image is accepted",
     "pairs whose reference distance is within 1e-9*scale of a decision boundary (cut-off, N-th distance, order of "
@@ -51,23 +123,34 @@ ASSUMPTIONS = [
     "crisp facet: all arithmetic exact in binary64 (integers < 2^12, power-of-two edges, dyadic tilts), so the "
     "inclusive boundary and exact distance ties are asserted without tolerance",
     "reader: well-formed files, Nmax >= 1, no read past the last frame (behaviour at EOF is not specified); "
-    "integer dtype (not specifically int32) is required for neighbour lists, float for any other list",
+    "integer dtype (not specifically int32) is required for neighbour lists, float for any other list; text variants "
+    "limited to those the unchanged reader accepts (CRLF, tabs, blank lines after the last frame, unterminated last line)",
+    "argument representations limited to those the unchanged routines accept with an identical file (probed): the "
+    "type-pair matrix must be a numpy array; N must be an integer type; float32 positions are out of domain",
 ]
 MANIFEST = {
     "text": ("Files written by Nnearests, cutoffneighbors and cutoffneighbors_particletype are parsed independently "
              "and compared with a brute-force minimum-image reference: one header per frame, every id once, cn = "
              "length, 1-based ids, never the particle itself, exactly the N closest / exactly the pairs within the "
              "(type-pair) cut-off, non-decreasing distance order, symmetry of the global cut-off relation "
-             "(facets nnearest, nnearest_large, cutoff, cutoff_type, and sheared = per-frame cell matrix); boundary-inclusive cut-offs and exact distance ties on integer "
-             "constructions such as a 3-4-5 pair at r_cut = 5.0 (facet crisp); every written file is read back "
-             "frame by frame. read_neighbors is checked as a rule-based state machine against a frame-pointer "
-             "model: any Nmax per read (truncation, padding, width 1+min(max cn,Nmax)), id-indexed rows in shuffled "
-             "order, cn = 0 rows, weight-type headers with verbatim floats, two files read interleaved, reopen, "
-             "a neighbour and a weight file of the same shape read alternately with handles opened in either order, "
-             "all-empty frames (width 1), remaining text after k reads (facet reader_machine)."),
+             "(facets nnearest, nnearest_large, cutoff, cutoff_type, sheared = per-frame cell matrix, size_boundary = "
+             "particle numbers and frames per file around block sizes 32..256 (thorough: 500..1025), inhomogeneous = "
+             "clusters in a dilute background, voids, slabs and droplets with free surfaces, 150..400 particles); "
+             "unwrapped coordinates up to 50 cells away, axis-permuted tilted cells, K up to 5, value-equal argument "
+             "representations, an earlier writer call with other contents; boundary-inclusive cut-offs and exact "
+             "distance ties on integer constructions such as a 3-4-5 pair at r_cut = 5 (facet crisp); every written "
+             "file is read back frame by frame. read_neighbors is checked as a rule-based state machine against a "
+             "frame-pointer model: any Nmax per read (truncation, padding, width 1+min(max cn,Nmax)), id-indexed rows "
+             "in shuffled order, cn = 0 rows, weight-type headers with verbatim floats, two files read interleaved, "
+             "reopen, a neighbour and a weight file of the same shape read alternately with handles opened in either "
+             "order, all-empty frames (width 1), remaining text after k reads, all earlier results re-checked (facet "
+             "reader_machine), and sequentially over synthetic files with 1..258 rows per frame, 31..129 frames per "
+             "file, 127..258 entries per row around Nmax = 128 / 200 (default) / 256, LF / CRLF / tab-separated text "
+             "(facet reader_bulk)."),
     "note": ("Trusted base: own parser/encoder and numpy reference in pbt/ref/neigh.py; C02 contract for the "
              "minimum image. Ambiguity rule 1e-9*scale at every discrete decision; exact arithmetic in the crisp "
-             "facet. Not covered: behaviour at EOF, malformed files, coincident particles, N_nn >= N."),
+             "facet. Not covered: behaviour at EOF, malformed files, blank lines between frames, coincident "
+             "particles, N_nn >= N, zero-particle frames, float32 positions."),
     "technique": ("property-based testing (Hypothesis): reference-model differential on the written file + "
                   "stateful model-based testing (RuleBasedStateMachine) of the sequential reader"),
 }
@@ -84,9 +167,27 @@ def frame_cells(case):
     return case["cells"] if case.get("cells") else [case["cell"]] * len(case["pos"])
 
 
+def _integral(a):
+    a = np.asarray(a, dtype=float)
+    return bool(np.all(a == np.rint(a)))
+
+
 def make_snapshots(case):
-    snaps = [snapshot_from(c, p, case["types"], ts)
-             for c, p, ts in zip(frame_cells(case), case["pos"], case["timesteps"])]
+    """Snapshots object for the case, with the value-equal representations of case["rep"]: label dtype (the GSD reader
+    delivers uint32), integer positions / integer cell where all values are integers (crisp constructions)."""
+    rep = case.get("rep") or {}
+    snaps = []
+    for c, p, ts in zip(frame_cells(case), case["pos"], case["timesteps"]):
+        s = snapshot_from(c, p, case["types"], ts)
+        ch = {}
+        if rep.get("types", "int64") != "int64":
+            ch["particle_type"] = np.asarray(case["types"]).astype(rep["types"])
+        if rep.get("pos", "float64") != "float64" and _integral(p):
+            ch["positions"] = np.asarray(p).astype(rep["pos"])
+        if rep.get("cell", "float64") == "int64" and _integral(c["H"]) and _integral(s.boxbounds):
+            ch.update(hmatrix=np.asarray(c["H"]).astype(np.int64), boxlength=np.diag(np.asarray(c["H"])).astype(np.int64),
+                      boxbounds=np.asarray(s.boxbounds).astype(np.int64))
+        snaps.append(dataclasses.replace(s, **ch) if ch else s)
     return Snapshots(nsnapshots=len(snaps), snapshots=snaps)
 
 
@@ -147,32 +248,124 @@ def compare_read(tag, got, rows, N, nmax, is_neighbor):
 
 
 def read_back(fn, frames, N, what):
-    """Every written file is read back frame by frame with the default Nmax from one open handle."""
+    """Every written file is read back frame by frame with the default Nmax from one open handle; all returned
+    arrays are kept and re-compared at the end (a result handed out earlier must stay what it was)."""
+    kept = []
     with open(fn, "r", encoding="utf-8") as f:
         for k, fr in enumerate(frames):
             rows = {pid: ent for pid, _, ent in fr["rows"]}
-            compare_read(f"{what}: read_neighbors frame {k}", read_neighbors(f, N), rows, N, 200, True)
+            got = read_neighbors(f, N)
+            compare_read(f"{what}: read_neighbors frame {k}", got, rows, N, 200, True)
+            kept.append((got, np.array(got, copy=True)))
         require(f.read() == "", f"{what}: text left in the file after reading all {len(frames)} frames")
+    for k, (got, copy) in enumerate(kept):
+        require(np.array_equal(np.asarray(got), copy), f"{what}: the array returned for frame {k} changed during later reads")
+
+
+FN_BY_REP = {"default-name": FN, "custom": "nl-custom.txt", "subdir": os.path.join("lists", "frame set.dat")}
 
 
 def uses_defaults(case):
-    return case["d"] == 3 and bool(np.all(np.asarray(case["ppp"]) == 1)) and len(case["types"]) % 2 == 0
+    rep = case.get("rep") or {}
+    return (case["d"] == 3 and bool(np.all(np.asarray(case["ppp"]) == 1)) and len(case["types"]) % 2 == 0
+            and rep.get("fn", "default-name") == "default-name" and rep.get("ppp", "array") == "array")
 
 
-def call_writer(case, snaps):
+def call_writer(case, snaps, fn=None):
+    """Calls the writer of case["w"] with the argument representations of case["rep"]; returns the file name."""
     kind = case["w"]
+    rep = case.get("rep") or {}
     ppp = np.array(case["ppp"], dtype=int)
-    if os.path.exists(FN):
-        os.remove(FN)
     # documented defaults: ppp = [1,1,1], fnfile = 'neighborlist.dat' (== FN); used for every other eligible case
-    kw = {} if uses_defaults(case) else {"ppp": ppp, "fnfile": FN}
-    if kind == "nn":
-        Nnearests(snaps, N=int(case["nnn"]), **kw)
-    elif kind == "cut":
-        cutoffneighbors(snaps, r_cut=float(case["rc"]), **kw)
+    if fn is None and uses_defaults(case):
+        kw = {}
+        path = FN
     else:
-        cutoffneighbors_particletype(snaps, r_cut=np.array(case["rcm"], dtype=float), **kw)
-    require(os.path.exists(FN), f"{kind}: no file {FN} written")
+        path = fn or FN_BY_REP[rep.get("fn", "default-name")]
+        pr = rep.get("ppp", "array")
+        pv = {"list": lambda: [int(x) for x in ppp], "tuple": lambda: tuple(int(x) for x in ppp),
+              "bool": lambda: ppp.astype(bool), "int32": lambda: ppp.astype(np.int32)}.get(pr, lambda: ppp)()
+        kw = {"ppp": pv, "fnfile": path}
+    if os.path.dirname(path):
+        os.makedirs(os.path.dirname(path), exist_ok=True)
+    if os.path.exists(path):
+        os.remove(path)
+    if kind == "nn":
+        nnn = {"np.int64": np.int64, "np.int32": np.int32}.get(rep.get("N", "int"), int)(case["nnn"])
+        Nnearests(snaps, N=nnn, **kw)
+    elif kind == "cut":
+        rc = float(case["rc"])
+        rr = rep.get("rc", "float")
+        if rr in ("int", "np.int64") and rc.is_integer():
+            rc = int(rc) if rr == "int" else np.int64(rc)
+        elif rr == "np.float64":
+            rc = np.float64(rc)
+        cutoffneighbors(snaps, r_cut=rc, **kw)
+    else:
+        M = np.array(case["rcm"], dtype=float)
+        rr = rep.get("rcm", "float64")
+        if rr == "int64" and _integral(M):
+            M = M.astype(np.int64)
+        elif rr == "float32" and _integral(M):
+            M = M.astype(np.float32)      # small integers are exact in float32
+        elif rr == "fortran":
+            M = np.asfortranarray(M)
+        elif rr == "strided":             # a K x K block taken out of a wider table
+            wide = np.full((2 * M.shape[0], 2 * M.shape[1]), 0.123)
+            wide[::2, ::2] = M
+            M = wide[::2, ::2]
+        cutoffneighbors_particletype(snaps, r_cut=M, **kw)
+    require(os.path.exists(path), f"{kind}: no file {path} written")
+    return path
+
+
+def decoy_of(case):
+    """Another input of the same shapes (N, d, K, T, cell kind): particles in reverse order, everything scaled by 2,
+    tilts negated, labels rotated, other parameters.  Used for a call BEFORE the one that is checked."""
+    def flip(c):
+        H = np.asarray(c["H"], dtype=float)
+        D = np.diag(np.diag(H))
+        return dict(c, H=2.0 * (2.0 * D - H), lo=2.0 * np.asarray(c["lo"], dtype=float))
+    dc = dict(case)
+    dc["pos"] = [np.ascontiguousarray(np.asarray(p)[::-1] * 2.0) for p in reversed(case["pos"])]
+    dc["cell"] = flip(case["cell"])
+    if case.get("cells"):
+        dc["cells"] = [flip(c) for c in reversed(case["cells"])]
+    dc["types"] = np.roll(np.asarray(case["types"]), 1)
+    N = len(case["types"])
+    if "nnn" in case:
+        dc["nnn"] = max(1, N - 1 - int(case["nnn"])) if N > 2 else 1
+    if "rc" in case:
+        dc["rc"] = float(case["rc"]) * 2.0 * 0.75
+    if "rcm" in case:
+        dc["rcm"] = np.asarray(case["rcm"], dtype=float).T * 2.0 * 0.75
+    dc["rep"] = dict(case.get("rep") or {}, prior="none")
+    return dc
+
+
+def run_writer(case):
+    """Builds the Snapshots object and calls the writer; with case["rep"]["prior"] the writer has been called before
+    with other contents — through another object, or through the SAME snapshot arrays which are then overwritten in
+    place with the contents that are checked.  Returns the name of the file to check."""
+    prior = (case.get("rep") or {}).get("prior", "none")
+    if prior == "none":
+        return call_writer(case, make_snapshots(case))
+    decoy = decoy_of(case)
+    dsn = make_snapshots(decoy)
+    dpath = call_writer(decoy, dsn, fn="decoy.dat")
+    with open(dpath, "r", encoding="utf-8") as f:
+        before = f.read()
+    real = make_snapshots(case)
+    if prior == "same-object-inplace":
+        for sd, sr in zip(dsn.snapshots, real.snapshots):
+            for name in ("positions", "particle_type", "hmatrix", "boxlength", "boxbounds", "realbounds"):
+                if getattr(sd, name) is not None:
+                    getattr(sd, name)[...] = getattr(sr, name)
+        real = dsn
+    path = call_writer(case, real)
+    with open(dpath, "r", encoding="utf-8") as f:
+        require(f.read() == before, "the file written by an earlier call changed during a later call of the writer")
+    return path
 
 
 # ============================================================================= generated configurations
@@ -185,26 +378,60 @@ def ufrac_st(N, d):
     return hnp.arrays(np.float64, (N, d), elements=el, unique=True)
 
 
+PPP_REPS = ["array", "array", "array", "list", "tuple", "bool", "int32"]
+TYPE_DTYPES = ["int64", "int64", "int32", "uint32", "uint8"]          # the GSD reader delivers uint32 labels
+FN_REPS = ["default-name", "default-name", "default-name", "custom", "subdir"]
+PRIOR = ["none"] * 5 + ["other-object", "same-object-inplace"]
+
+
 @st.composite
-def conf_st(draw, nmax=40, frames=(1, 4), K=None, kmax=3, lmin=1.0, lmax=30.0, sheared=None):
+def rep_st(draw, kind, crisp=False):
+    """Value-equal argument representations (EXTENSION_2 class 3, EXTENSION_3 class 2) and the prior-call class
+    (EXTENSION_1 class 3).  Each was probed on the unchanged tree: identical file."""
+    rep = {"ppp": draw(st.sampled_from(PPP_REPS)), "types": draw(st.sampled_from(TYPE_DTYPES)),
+           "fn": draw(st.sampled_from(FN_REPS)), "prior": draw(st.sampled_from(PRIOR))}
+    if kind == "nn":
+        rep["N"] = draw(st.sampled_from(["int", "int", "np.int64", "np.int32"]))
+    elif kind == "cut":
+        rep["rc"] = draw(st.sampled_from(["float", "int", "np.int64", "np.float64"]))
+    else:
+        rep["rcm"] = draw(st.sampled_from(["float64", "int64", "fortran", "strided"] + (["float32"] if crisp else [])))
+    if crisp:
+        rep["pos"] = draw(st.sampled_from(["float64", "float64", "int64", "int32"]))
+        rep["cell"] = draw(st.sampled_from(["float64", "int64"]))
+    return rep
+
+
+def permuted_cell(cell, ax):
+    """A reader-style triclinic cell after the axis permutation ax: P H P^T is no longer lower triangular."""
+    ax = list(ax)
+    return dict(cell, kind="general", H=np.asarray(cell["H"])[ax][:, ax], lo=np.asarray(cell["lo"])[ax])
+
+
+OFFS = ["inside", "inside", "near", "near", "far3", "far8", "far50"]
+
+
+@st.composite
+def conf_st(draw, nmin=3, nmax=40, frames=(1, 4), K=None, kmax=3, lmin=1.0, lmax=30.0, sheared=None):
     """Like gen.config_st (same case layout), but every kind is free of coincident particles by construction and the
     later frames are either fresh gases or small displacements of frame 0."""
     d = draw(st.sampled_from([2, 3]))
     cell = draw(cell_st(d, "tri" if sheared else "any", lmin=lmin, lmax=lmax))
     K_ = K if K is not None else draw(st.integers(1, kmax))
+    nmin = max(nmin, K_)
     kind = draw(st.sampled_from(["gas", "gas", "lattice", "cluster"]))
     if kind == "lattice":
         f0, kind = draw(frac_config_st(d, nmin=max(3, K_), nmax=nmax, kinds=("lattice",),
                                        exact_lattice=cell["kind"] == "ortho"))
     elif kind == "cluster":
-        N = draw(st.integers(max(3, K_), nmax))
+        N = draw(st.integers(max(3, nmin), nmax))
         nc = draw(st.integers(1, 3))
         centres = draw(ufrac_st(nc, d))
         which = draw(st.lists(st.integers(0, nc - 1), min_size=N, max_size=N))
         width = draw(st.sampled_from([0.02, 0.05, 0.1]))
         f0 = (centres[which] + width * (2.0 * draw(ufrac_st(N, d)) - 1.0)) % 1.0
     else:
-        N = draw(st.integers(max(3, K_), nmax))
+        N = draw(st.integers(nmin, min(nmax, nmin + 1))) if draw(st.integers(0, 9)) == 0 else draw(st.integers(max(3, nmin), nmax))
         f0 = draw(ufrac_st(N, d))
     N = len(f0)
     T = draw(st.integers(*frames))
@@ -215,9 +442,13 @@ def conf_st(draw, nmax=40, frames=(1, 4), K=None, kmax=3, lmin=1.0, lmax=30.0, s
         else:
             fr.append((f0 + draw(st.sampled_from([0.01, 0.05])) * (2.0 * draw(ufrac_st(N, d)) - 1.0)) % 1.0)
     ppp = draw(ppp_st(d))
+    # where the particles are relative to the cell: wrapped, one image outside, or unwrapped coordinates several cell
+    # lengths apart (xu yu zu of a long run: a single-image fold is not the minimum image)
+    offclass = draw(st.sampled_from(OFFS))
     offs = np.zeros((N, d))
-    if draw(st.booleans()):
-        offs = draw(hnp.arrays(np.int64, (N, d), elements=st.integers(-1, 1))).astype(float) * ppp
+    if offclass != "inside":
+        amp = {"near": 1, "far3": 3, "far8": 8, "far50": 50}[offclass]
+        offs = draw(hnp.arrays(np.int64, (N, d), elements=st.integers(-amp, amp))).astype(float) * ppp
     cells = None
     if cell["kind"] == "tri" and T >= 2 and (sheared or (sheared is None and draw(st.integers(0, 3)) == 0)):
         # sheared trajectory: same edge lengths and origin, every later frame its own tilt factors
@@ -235,26 +466,58 @@ def conf_st(draw, nmax=40, frames=(1, 4), K=None, kmax=3, lmin=1.0, lmax=30.0, s
             Hk = cells[-1]["H"].copy()  # make the shear real: xy moved by 0.3 lx, folded back into [-lx/2, lx/2)
             Hk[1, 0] = ((cell["H"][1, 0] / L[0] + 0.3 + 0.5) % 1.0 - 0.5) * L[0]
             cells[-1] = dict(cell, H=Hk)
+    elif cell["kind"] == "tri" and not sheared and draw(st.integers(0, 3)) == 0:
+        # a tilted cell with permuted axes (general cell matrix; the mask is drawn for the permuted axes)
+        ax = draw(st.permutations(range(d)))
+        if list(ax) != list(range(d)):
+            cell = permuted_cell(cell, ax)
     Hs = [c["H"] for c in cells] if cells else [cell["H"]] * T
     pos = [cell["lo"] + (f + offs) @ Hk for f, Hk in zip(fr, Hs)]
     types = draw(types_st(N, K_))
     t0 = draw(st.integers(0, 10 ** 6))
     dt = draw(st.integers(1, 5000))
     out = {"d": d, "cell": cell, "pos": pos, "types": types, "ppp": ppp, "K": K_, "kind": kind,
-           "timesteps": [t0 + k * dt for k in range(T)], "outside": bool(np.any(offs))}
+           "timesteps": [t0 + k * dt for k in range(T)], "outside": bool(np.any(offs)),
+           "offs": offclass if np.any(offs) else "inside"}
     if cells:
         out["cells"] = cells
     return out
 
 
-@st.composite
-def writer_case_st(draw, kind, nmax=40, frames=(1, 4), sheared=None):
-    if kind == "any":
-        kind = draw(st.sampled_from(["nn", "cut", "type"]))
-    K = None if kind == "type" else 1
-    # cut-off kinds: aspect ratio <= 5, otherwise half the shortest edge leaves nearly every list empty
-    lm = (1.0, 30.0) if kind == "nn" or draw(st.integers(0, 3)) == 0 else (3.0, 15.0)
-    c = draw(conf_st(nmax=nmax, K=K, kmax=3, frames=frames, lmin=lm[0], lmax=lm[1], sheared=sheared))
+def cut_picker(draw, gaps, rmax, tol, mode="any"):
+    """Returns one_cut(): a cut-off inside a gap of the reference distances (margin around ties).  An integer inside
+    the gap is preferred every other time, so that r_cut can also be passed as an int / integer matrix."""
+    all_empty = bool(gaps) and gaps[0][0] == 0.0 and draw(st.integers(0, 11)) == 0  # below the smallest distance
+    want_int = draw(st.booleans())
+
+    def in_gap(a, b):
+        if want_int:
+            k0 = int(np.ceil(a + 2 * tol))
+            if k0 >= 1 and k0 < b - 2 * tol:
+                return float(draw(st.integers(k0, min(int(np.floor(b - 2 * tol)), k0 + 3)).filter(lambda k: k < b - 2 * tol)))
+        return a + draw(st.sampled_from([0.25, 0.5, 0.75])) * (b - a)
+
+    def one_cut():
+        if all_empty:
+            return gaps[0][0] + draw(st.sampled_from([0.25, 0.5, 0.75])) * (gaps[0][1] - gaps[0][0])
+        if not gaps or (mode == "any" and draw(st.integers(0, 7)) == 0):
+            return draw(fl(rmax * 1e-3, rmax))  # anywhere: ambiguity rule decides
+        if mode == "quantile":
+            # inhomogeneous / large systems: a quantile of the pair-distance distribution (the short distances are
+            # the intra-cluster ones, so small quantiles give cut-offs on the cluster scale)
+            q = draw(st.sampled_from([0.0005, 0.002, 0.01, 0.03, 0.1, 0.3, 0.6, 1.0]))
+            g = int(q * (len(gaps) - 1))
+            g = min(len(gaps) - 1, max(0, g + draw(st.integers(-2, 2))))
+            return in_gap(*gaps[g])
+        # two draws, keep the larger index: longer lists are the interesting ones
+        a, b = gaps[max(draw(st.integers(0, len(gaps) - 1)), draw(st.integers(0, len(gaps) - 1)))]
+        return in_gap(a, b)
+
+    return one_cut
+
+
+def finish_writer_case(draw, c, kind, nn_st=None, mode="any"):
+    """Adds the writer's parameter (N_nn / r_cut / matrix) and the representations to a configuration case."""
     tol = _tol(c)
     N = len(c["types"])
     dmax = 0.0
@@ -262,28 +525,18 @@ def writer_case_st(draw, kind, nmax=40, frames=(1, 4), sheared=None):
     for p, ck in zip(c["pos"], frame_cells(c)):
         dlo, dhi, _ = neigh.distance_intervals(p, ck["H"], c["ppp"])
         off = ~np.eye(N, dtype=bool)
-        assume(dlo[off].min() > 100 * tol)  # no coincident particles
-        dmax = max(dmax, float(dhi.max()))
+        if N > 1:
+            assume(dlo[off].min() > 100 * tol)  # no coincident particles
+            dmax = max(dmax, float(dhi.max()))
         mats.append((dlo, dhi))
     c["w"] = kind
+    c["rep"] = draw(rep_st(kind))
     if kind == "nn":
-        c["nnn"] = N - 1 if draw(st.integers(0, 7)) == 0 else draw(st.integers(1, N - 1))
+        c["nnn"] = draw(nn_st) if nn_st is not None else (N - 1 if draw(st.integers(0, 7)) == 0 else draw(st.integers(1, N - 1)))
         return c
     rmax = _rmax(c, dmax)
     gaps = neigh.gap_points(mats, rmax, tol)
-
-    all_empty = bool(gaps) and gaps[0][0] == 0.0 and draw(st.integers(0, 11)) == 0  # below the smallest distance
-
-    def one_cut():
-        if all_empty:
-            return gaps[0][0] + draw(st.sampled_from([0.25, 0.5, 0.75])) * (gaps[0][1] - gaps[0][0])
-        if not gaps or draw(st.integers(0, 7)) == 0:
-            return draw(fl(rmax * 1e-3, rmax))  # anywhere: ambiguity rule decides
-        # two draws, keep the larger index: longer lists are the interesting ones
-        a, b = gaps[max(draw(st.integers(0, len(gaps) - 1)), draw(st.integers(0, len(gaps) - 1)))]
-        t = draw(st.sampled_from([0.25, 0.5, 0.75]))
-        return a + t * (b - a)
-
+    one_cut = cut_picker(draw, gaps, rmax, tol, mode)
     if kind == "cut":
         c["rc"] = one_cut()
     else:
@@ -293,6 +546,19 @@ def writer_case_st(draw, kind, nmax=40, frames=(1, 4), sheared=None):
             M = np.minimum(M, M.T)  # some symmetric matrices as well
         c["rcm"] = M
     return c
+
+
+@st.composite
+def writer_case_st(draw, kind, nmax=40, frames=(1, 4), sheared=None):
+    if kind == "any":
+        kind = draw(st.sampled_from(["nn", "cut", "type"]))
+    K = None if kind == "type" else 1
+    # cut-off kinds: aspect ratio <= 5, otherwise half the shortest edge leaves nearly every list empty
+    lm = (1.0, 30.0) if kind == "nn" or draw(st.integers(0, 3)) == 0 else (3.0, 15.0)
+    # smallest systems the statement still defines: one particle (empty list) for the cut-off kinds, two for N-nearest
+    c = draw(conf_st(nmin=2 if kind == "nn" else 1, nmax=nmax, K=K, kmax=5, frames=frames, lmin=lm[0], lmax=lm[1],
+                     sheared=sheared))
+    return finish_writer_case(draw, c, kind)
 
 
 @st.composite
@@ -316,16 +582,139 @@ def large_nn_st(draw):
     return c
 
 
+# ----------------------------------------------------------------------------- bulk configurations (seeded)
+
+# around typical block sizes 32, 50, 64, 100, 128, 200, 256 (EXTENSION_3 class 1); 128 + 128//3 = 170
+SIZES_QUICK = [31, 32, 33, 49, 50, 51, 63, 64, 65, 99, 100, 101, 127, 128, 129, 130, 170, 199, 200, 201, 255, 256, 257, 258,
+               127, 128, 129, 130, 255, 256, 257, 258]
+SIZES_THOROUGH = [499, 500, 501, 511, 512, 513, 999, 1000, 1001, 1023, 1024, 1025]
+FRAMES_B = [31, 32, 33, 49, 50, 51, 63, 64, 65, 99, 100, 101, 127, 128, 129]
+NNN_B = [1, 2, 12, 31, 32, 33, 63, 64, 65, 99, 100, 101, 127, 128, 129, 199, 200, 201, 255, 256]
+
+
+def bulk_frac(rng, N, d, style):
+    """Fractional coordinates of an inhomogeneous configuration (numpy generator seeded by Hypothesis)."""
+    if style == "gas":
+        return rng.random((N, d))
+    if style == "clusters":
+        # dense clusters in a dilute background: most particles sit in 1..3 small blobs
+        nb = max(2, int(N * float(rng.choice([0.03, 0.08, 0.15, 0.3]))))
+        nc = int(rng.integers(1, 4))
+        centres = rng.random((nc, d))
+        width = float(rng.choice([0.01, 0.03, 0.06]))
+        blobs = centres[rng.integers(0, nc, N - nb)] + width * rng.normal(size=(N - nb, d))
+        f = np.vstack([rng.random((nb, d)), blobs]) % 1.0
+    elif style == "void":
+        # a liquid with 1..2 large spherical holes
+        nv = int(rng.integers(1, 3))
+        cv = rng.random((nv, d))
+        rv = rng.uniform(0.25, 0.42, nv)
+        cand = rng.random((8 * N + 200, d))
+        dd = np.abs(cand[:, None, :] - cv[None, :, :])
+        dd = np.minimum(dd, 1.0 - dd)
+        keep = (np.sqrt((dd ** 2).sum(axis=2)) > rv[None, :]).all(axis=1)
+        f = cand[keep][:N]
+        if len(f) < N:
+            f = np.vstack([f, rng.random((N - len(f), d))])
+    elif style == "slab":
+        # a film with two free surfaces (vacuum gap along one axis), a few vapour particles
+        a = int(rng.integers(0, d))
+        th = float(rng.choice([0.08, 0.2, 0.4]))
+        f = rng.random((N, d))
+        nvap = int(N * float(rng.choice([0.0, 0.02, 0.05])))
+        f[nvap:, a] = (float(rng.random()) + th * f[nvap:, a]) % 1.0
+    else:  # droplet
+        c0 = rng.random(d)
+        rad = float(rng.choice([0.08, 0.15, 0.25]))
+        u = rng.normal(size=(N, d))
+        u /= np.linalg.norm(u, axis=1)[:, None]
+        f = (c0 + rad * u * rng.random((N, 1)) ** (1.0 / d)) % 1.0
+        nvap = int(N * float(rng.choice([0.0, 0.03, 0.1])))
+        f[:nvap] = rng.random((nvap, d))
+    return f[rng.permutation(N)]      # ids carry no information about the region
+
+
+@st.composite
+def bulk_st(draw, sizes, styles, many_frames=False, dims=(2, 3), writers=("nn", "cut", "type")):
+    """Seeded bulk configurations for the size-boundary and the inhomogeneous facets, all three writers."""
+    d = draw(st.sampled_from(list(dims)))
+    cell = draw(cell_st(d, "any", lmin=5.0, lmax=20.0))
+    kind = draw(st.sampled_from(list(writers)))
+    # the size and the style are taken from the seeded generator, not from separate Hypothesis draws: Hypothesis
+    # clumps `sampled_from` heavily within a few dozen cases (measured: 128/129 fifteen times, 255..258 once), while
+    # every boundary value has to be populated in every run
+    rng = np.random.default_rng(draw(st.integers(0, 2 ** 32 - 1)))
+    style = str(rng.choice(styles))
+    if many_frames and rng.integers(0, 6) == 0:
+        # frames per file at the boundaries, tiny frames
+        N = int(rng.integers(2, 6))
+        T = int(rng.choice(FRAMES_B))
+        style = "gas"
+    else:
+        N = int(rng.choice(sizes)) if isinstance(sizes, list) else int(rng.integers(sizes[0], sizes[1] + 1))
+        T = 1 if N > 130 or rng.integers(0, 4) else 2
+    ppp = draw(ppp_st(d))
+    if cell["kind"] == "tri" and draw(st.integers(0, 4)) == 0:
+        ax = draw(st.permutations(range(d)))
+        if list(ax) != list(range(d)):
+            cell = permuted_cell(cell, ax)
+    offclass = draw(st.sampled_from(["inside", "inside", "inside", "near", "far8"]))
+    offs = np.zeros((N, d))
+    if offclass != "inside":
+        amp = {"near": 1, "far8": 8}[offclass]
+        offs = rng.integers(-amp, amp + 1, (N, d)).astype(float) * ppp
+    fr = [bulk_frac(rng, N, d, style) for _ in range(T)]
+    K = min(N, draw(st.integers(1, 4))) if kind == "type" else 1
+    types = np.concatenate([np.arange(1, K + 1), rng.integers(1, K + 1, N - K)])[rng.permutation(N)].astype(int)
+    c = {"d": d, "cell": cell, "pos": [cell["lo"] + (f + offs) @ cell["H"] for f in fr], "types": types, "ppp": ppp, "K": K,
+         "kind": style, "timesteps": [100 * k for k in range(T)], "outside": bool(np.any(offs)),
+         "offs": offclass if np.any(offs) else "inside", "style": style}
+    small = st.integers(1, min(16, N - 1))
+    nn_st = st.one_of(small, small, small, st.sampled_from([k for k in NNN_B + [N - 1, N - 2, N // 2] if 1 <= k <= N - 1]))
+    return finish_writer_case(draw, c, kind, nn_st=nn_st, mode="quantile")
+
+
+def rep_tags(case):
+    """Class tags for the representations that were really applied (an integer r_cut only where it is integral)."""
+    rep = case.get("rep") or {}
+    kind = case["w"]
+    tags = []
+    if not uses_defaults(case):
+        if rep.get("ppp", "array") != "array":
+            tags.append("ppp-" + rep["ppp"])
+        if rep.get("fn", "default-name") != "default-name":
+            tags.append("fn-" + rep["fn"])
+    if rep.get("types", "int64") != "int64":
+        tags.append("types-" + rep["types"])
+    if rep.get("prior", "none") != "none":
+        tags.append("prior-" + rep["prior"])
+    if kind == "nn" and rep.get("N", "int") != "int":
+        tags.append("N-" + rep["N"])
+    if kind == "cut":
+        rr = rep.get("rc", "float")
+        if rr == "np.float64" or (rr in ("int", "np.int64") and float(case["rc"]).is_integer()):
+            tags.append("rc-" + rr)
+    if kind == "type":
+        rr = rep.get("rcm", "float64")
+        if rr in ("fortran", "strided") or (rr in ("int64", "float32") and _integral(case["rcm"])):
+            tags.append("rcm-" + rr)
+    if rep.get("pos", "float64") != "float64" and all(_integral(p) for p in case["pos"]):
+        tags.append("pos-" + rep["pos"])
+    if rep.get("cell", "float64") == "int64" and _integral(case["cell"]["H"]) and _integral(case["cell"]["lo"]):
+        tags.append("cell-int64")
+    return tags
+
+
 def check_writer(case):
     kind = case["w"]
-    snaps = make_snapshots(case)
     N = len(case["types"])
     T = len(case["pos"])
     cells = frame_cells(case)
     types = np.asarray(case["types"], dtype=int)
     tol = _tol(case)
-    call_writer(case, snaps)
-    frames, lists = parse_written(FN, N, T, kind)
+    path = run_writer(case)
+    frames, lists = parse_written(path, N, T, kind)
+    maxcn = 0
     n_amb = n_tie = 0
     cn_varies = False
     multi = False
@@ -341,6 +730,7 @@ def check_writer(case):
             require(pos < 0, lambda: f"{kind}: frame {k} particle {i + 1}: list not in increasing distance order at "
                     f"position {pos}: ids {[j + 1 for j in L[i]]} distances {[float(dlo[i, j]) for j in L[i]]}")
         cns = listed.sum(axis=1)
+        maxcn = max(maxcn, int(cns.max()))
         multi = multi or bool((cns >= 2).any())
         cn_varies = cn_varies or len(set(cns.tolist())) > 1
         excluded = excluded or bool((cns < N - 1).any())
@@ -351,7 +741,7 @@ def check_writer(case):
                 w = neigh.nearest_ok(dlo[i], dhi[i], i, L[i], tol)
                 require(w is None, lambda: f"nn: frame {k} particle {i + 1}: listed id {w[0] + 1} at distance "
                         f"{dlo[i, w[0]]!r} while unlisted id {w[1] + 1} is closer ({dhi[i, w[1]]!r}); N = {nnn}")
-                thr = np.sort(dlo[i][np.arange(N) != i])[nnn - 1]
+                thr = np.partition(dlo[i][np.arange(N) != i], nnn - 1)[nnn - 1]
                 n_amb += int((np.abs(dlo[i] - thr) <= tol).sum()) - 1
         else:
             if kind == "cut":
@@ -379,21 +769,29 @@ def check_writer(case):
                 if asym.any():
                     i, j = (int(x) for x in np.argwhere(asym)[0])
                     raise Violation(f"cut: frame {k}: relation not symmetric for ids {i + 1},{j + 1}")
-    read_back(FN, frames, N, kind)
+    read_back(path, frames, N, kind)
 
     ppp = np.asarray(case["ppp"])
+    rep = case.get("rep") or {}
     nontrivial = bool(multi and (kind == "nn" or cn_varies))
     tags = [f"d{case['d']}", case["cell"]["kind"], "mask-full" if ppp.all() else ("mask-open" if not ppp.any() else "mask-partial"),
-            f"frames{T}", case["kind"].split("-")[0] + ("-jit" if case["kind"].endswith("jit") else ""),
-            "N<=8" if N <= 8 else ("N<=20" if N <= 20 else ("N<=40" if N <= 40 else "N>=150")),
-            "outside" if case["outside"] else "inside",
+            f"frames{T}" if T <= 4 else f"frames-boundary-{T}",
+            ("style-" + case["style"]) if case.get("style") else case["kind"].split("-")[0] + ("-jit" if case["kind"].endswith("jit") else ""),
+            "N=1" if N == 1 else ("N=2" if N == 2 else ("N<=8" if N <= 8 else ("N<=20" if N <= 20 else ("N<=40" if N <= 40 else "N>=150" if N >= 150 else "N<150")))),
+            "outside" if case["outside"] else "inside", "offs-" + case.get("offs", "near" if case["outside"] else "inside"),
             "ambiguous" if n_amb else "no-ambiguous", "tie-pairs" if n_tie else "no-tie-pairs",
             "default-args" if uses_defaults(case) else "explicit-args",
             "sheared" if case.get("cells") else "fixed-cell", "w-" + kind]
+    if N in SIZES_QUICK or N in SIZES_THOROUGH:
+        tags.append(f"size-boundary-{N}")
+    tags += rep_tags(case)
     if kind == "nn":
         nnn = int(case["nnn"])
         tags.append("Nnn=N-1" if nnn == N - 1 else ("Nnn=1" if nnn == 1 else "Nnn-mid"))
+        if nnn in NNN_B[3:]:
+            tags.append(f"Nnn-boundary-{nnn}")
     else:
+        tags += [t for t, v in (("maxcn>=32", 32), ("maxcn>=64", 64), ("maxcn>=128", 128)) if maxcn >= v]
         tags.append("cn-varies" if cn_varies else "cn-uniform")
         tags.append("some-cn0" if any(len(x) == 0 for L in lists for x in L) else "all-cn>0")
         if any(all(len(x) == 0 for x in L) for L in lists):
@@ -419,6 +817,8 @@ def describe_writer(case):
     if "rcm" in case:
         out["rcm"] = np.round(case["rcm"], 5).tolist()
         out["types"] = np.asarray(case["types"]).tolist()[:12]
+    out["rep"] = case.get("rep")
+    out["offs"] = case.get("offs")
     return out
 
 
@@ -486,7 +886,7 @@ def crisp_st(draw):
             keep.append(i)
     pts = pts[keep]
     N = len(pts)
-    assume(N >= max(3, K))
+    assume(N >= max(2, K))
     types = draw(types_st(N, K))
     case = {"d": d, "cell": {"d": d, "kind": ck, "H": H.astype(float), "lo": lo.astype(float), "origin": "int"},
             "pos": [pts.astype(float)], "types": types, "ppp": ppp, "K": K, "timesteps": [0], "w": kind,
@@ -497,6 +897,9 @@ def crisp_st(draw):
         case["rc"] = float(used[0])
     else:
         case["rcm"] = M.astype(float)
+    # the same integers in the representations a caller may hold them in: positions / cell as int64 or int32 arrays,
+    # r_cut as int, the matrix as an integer or float32 array, labels as int32 / uint32 / uint8, the mask as a list ...
+    case["rep"] = draw(rep_st(kind, crisp=True))
     return case
 
 
@@ -504,9 +907,8 @@ def check_crisp(case):
     kind = case["w"]
     N = len(case["types"])
     types = np.asarray(case["types"], dtype=int)
-    snaps = Snapshots(nsnapshots=1, snapshots=[snapshot_from(case["cell"], case["pos"][0], case["types"], 0)])
-    call_writer(case, snaps)
-    frames, lists = parse_written(FN, N, 1, "crisp-" + kind)
+    path = run_writer(case)
+    frames, lists = parse_written(path, N, 1, "crisp-" + kind)
     L = lists[0]
     d2lo, d2hi = neigh.exact_d2_intervals(case["posint"], case["Hint"], case["ppp"])
     listed = np.zeros((N, N), dtype=bool)
@@ -559,9 +961,9 @@ def check_crisp(case):
                     if d2lo[i, j] == d2hi[i, j] and d2lo[j, i] == d2hi[j, i]:
                         require(listed[i, j] == listed[j, i], f"crisp-cut: relation not symmetric for ids {i + 1},{j + 1}")
         nontrivial = bool(boundary)
-    read_back(FN, frames, N, "crisp-" + kind)
+    read_back(path, frames, N, "crisp-" + kind)
     ppp = np.asarray(case["ppp"])
-    tags = [f"d{case['d']}", case["cell"]["kind"], kind, "mask-full" if ppp.all() else ("mask-open" if not ppp.any() else "mask-partial"),
+    tags = rep_tags(case) + ["N=2" if N == 2 else "N>=3"] + [f"d{case['d']}", case["cell"]["kind"], kind, "mask-full" if ppp.all() else ("mask-open" if not ppp.any() else "mask-partial"),
             "on-boundary" if boundary else "no-boundary-pair", "exact-order-tie" if n_tie_order else "no-order-tie"]
     if kind != "nn":
         tags.append("just-outside" if outside1 else "no-just-outside")
@@ -580,6 +982,7 @@ def describe_crisp(case):
             out[k] = case[k]
     if "rcm" in case:
         out["rcm"] = np.asarray(case["rcm"]).tolist()
+    out["rep"] = case.get("rep")
     return out
 
 
@@ -588,6 +991,45 @@ def describe_crisp(case):
 N_HEADERS = ["id     cn     neighborlist", "id   cn   neighborlist", "id cn neighborlist"]
 W_HEADERS = ["id   cn   edgelengthlist", "id   cn   facearealist", "id cn facearealist", "id cn edgelengthlist"]
 W_FORMATS = ["%.6f", "%.17g", "%g", "%.3e", "%.2f"]
+
+
+@st.composite
+def text_style_st(draw):
+    """Text variants of a well-formed file that the unchanged reader accepts (probed): blanks or tabs between the
+    fields, leading / trailing blanks, LF or CRLF line ends, blank lines after the last frame, an unterminated last
+    line; `newline` is how the caller opens the file (None: universal newlines, '': untranslated)."""
+    style = {"lead": draw(st.sampled_from(["", "", " ", "   "])), "sep": draw(st.sampled_from([" ", " ", "  ", "    ", "\t"])),
+             "trail": draw(st.sampled_from(["", "", " "])), "eol": draw(st.sampled_from(["\n", "\n", "\r\n"])),
+             "tail": draw(st.sampled_from(["", "", "", "\n", "\n\n"])), "final_newline": draw(st.integers(0, 5)) > 0,
+             "newline": draw(st.sampled_from([None, None, ""]))}
+    if style["eol"] == "\r\n" and style["tail"]:
+        style["tail"] = style["tail"].replace("\n", "\r\n")
+    return style
+
+
+def style_tags(style):
+    tags = []
+    if style.get("eol", "\n") == "\r\n":
+        tags.append("eol-crlf")
+        if style.get("newline") == "":
+            tags.append("newline-untranslated")
+    if style.get("tail"):
+        tags.append("tail-blank-lines")
+    elif not style.get("final_newline", True):
+        tags.append("no-final-newline")
+    if style.get("sep") == "\t":
+        tags.append("sep-tab")
+    return tags
+
+
+def write_text(name, text):
+    with open(name, "w", encoding="utf-8", newline="") as f:      # line ends exactly as encoded
+        f.write(text)
+
+
+def text_as_seen(name, newline):
+    with open(name, "r", encoding="utf-8", newline=newline) as f:
+        return f.read()
 
 
 @st.composite
@@ -609,8 +1051,7 @@ def syn_files_st(draw):
     kinds = {"neigh": ["neigh"], "weight": ["weight"], "pair": ["neigh", "weight"]}[mode]
     for kind in kinds:
         hdr = draw(st.sampled_from(N_HEADERS if kind == "neigh" else W_HEADERS))
-        style = {"lead": draw(st.sampled_from(["", " ", "   "])), "sep": draw(st.sampled_from([" ", "  ", "    "])),
-                 "trail": draw(st.sampled_from(["", " "]))}
+        style = draw(text_style_st())
         fmt = draw(st.sampled_from(W_FORMATS))
         frames = []
         for fr in struct:
@@ -643,6 +1084,7 @@ class ReaderMachine(RecordingMachine):
     def __init__(self):
         super().__init__()
         self.files = []
+        self.kept = []      # (array returned by the reader, copy taken at return, description)
         self.flags = {"cn_varies": False, "truncated": False, "consecutive": False}
 
     # ---- set-up
@@ -655,22 +1097,23 @@ class ReaderMachine(RecordingMachine):
         self.files = []
         if case["src"] == "lib":
             conf = case["conf"]
-            call_writer(conf, make_snapshots(conf))
+            path = run_writer(conf)
             N = len(conf["types"])
-            frames, _ = parse_written(FN, N, len(conf["pos"]), "machine-" + conf["w"])
-            with open(FN, "r", encoding="utf-8") as f:
+            frames, _ = parse_written(path, N, len(conf["pos"]), "machine-" + conf["w"])
+            with open(path, "r", encoding="utf-8") as f:
                 text = f.read()
             model = [{pid: ent for pid, _, ent in fr["rows"]} for fr in frames]
-            self.files.append({"name": FN, "N": N, "neighbor": True, "frames": model, "text": text})
+            self.files.append({"name": path, "N": N, "neighbor": True, "frames": model, "text": text, "newline": None})
             self.tag("lib-" + conf["w"])
         else:
             for k, fd in enumerate(case["files"]):
-                text = neigh.encode_list_file(fd["frames"], fd["style"])
                 name = f"syn{k}.dat"
-                with open(name, "w", encoding="utf-8") as f:
-                    f.write(text)
-                self.files.append({"name": name, "N": fd["N"], "neighbor": fd["kind"] == "neigh",
-                                   "frames": [fr["rows"] for fr in fd["frames"]], "text": text})
+                write_text(name, neigh.encode_list_file(fd["frames"], fd["style"]))
+                nl = fd["style"].get("newline")
+                self.files.append({"name": name, "N": fd["N"], "neighbor": fd["kind"] == "neigh", "newline": nl,
+                                   "frames": [fr["rows"] for fr in fd["frames"]], "text": text_as_seen(name, nl)})
+                for t in style_tags(fd["style"]):
+                    self.tag(t)
                 shuffled = any(fr["order"] != sorted(fr["order"]) for fr in fd["frames"])
                 self.tag(f"syn-{fd['kind']}" + ("-shuffled" if shuffled else "-ordered"))
                 if any(len(e) == 0 for fr in fd["frames"] for e in fr["rows"].values()):
@@ -678,12 +1121,12 @@ class ReaderMachine(RecordingMachine):
             if case["mode"] == "pair":
                 self.tag("two-files-neigh-opened-first" if self.files[0]["neighbor"] else "two-files-weight-opened-first")
         for fo in self.files:
-            fo["offs"] = neigh.frame_offsets(fo["text"], fo["N"])
             fo["F"] = len(fo["frames"])
+            fo["offs"] = neigh.frame_offsets(fo["text"], fo["N"], fo["F"])
             fo["ptr"] = 0
             fo["run"] = 0
             fo["rest_done"] = False
-            fo["h"] = open(fo["name"], "r", encoding="utf-8")
+            fo["h"] = open(fo["name"], "r", encoding="utf-8", newline=fo["newline"])
         self.last = None
 
     def teardown(self):
@@ -761,6 +1204,7 @@ class ReaderMachine(RecordingMachine):
             got = read_neighbors(fo["h"], fo["N"], nmax)
         tag = f"read #{len(self.log)} of {fo['name']} frame {fo['ptr']} Nmax={nmax}"
         compare_read(tag, got, rows, fo["N"], nmax, fo["neighbor"])
+        self.kept.append((got, np.array(got, copy=True), tag))
         fo["ptr"] += 1
         fo["run"] += 1
         if self.last is not None and self.last is not fo:
@@ -788,7 +1232,7 @@ class ReaderMachine(RecordingMachine):
         cands = self._reopenable()
         fo = cands[which % len(cands)]
         fo["h"].close()
-        fo["h"] = open(fo["name"], "r", encoding="utf-8")
+        fo["h"] = open(fo["name"], "r", encoding="utf-8", newline=fo["newline"])
         fo["ptr"] = 0
         fo["run"] = 0
         fo["rest_done"] = False
@@ -818,6 +1262,11 @@ class ReaderMachine(RecordingMachine):
         for fo in self.files:
             require(0 <= fo["ptr"] <= fo["F"], "harness: frame pointer out of range")
             require(not fo["h"].closed, f"{fo['name']}: the reader closed the caller's file handle")
+        # results handed out earlier must stay what they were (bit-for-bit against the copy taken at return)
+        for got, copy, tag in self.kept:
+            require(np.array_equal(np.asarray(got), copy), f"the array returned by {tag} changed during a later read")
+        if len(self.kept) >= 2 and "kept-results-rechecked" not in self.info["tags"]:
+            self.tag("kept-results-rechecked")
 
     @invariant()
     def inv(self):
@@ -838,27 +1287,173 @@ def describe_machine(log):
     return out
 
 
+# ============================================================================= the reader at the size boundaries
+
+ROWS_B = [1, 2, 31, 32, 33, 63, 64, 65, 99, 100, 101, 127, 128, 129, 130, 199, 200, 201, 255, 256, 257, 258]
+CN_B = [127, 128, 129, 130, 199, 200, 201, 202, 255, 256, 257, 258]      # entries per row; default Nmax = 200
+NMAX_B = [1, 2, 127, 128, 129, 199, 200, 201, 255, 256, 257]
+
+
+@st.composite
+def reader_bulk_st(draw):
+    """One synthetic file whose rows per frame, frames per file or entries per row sit at a block-size boundary; all
+    frames are read in sequence from one handle.  Bulk contents from numpy's generator seeded by Hypothesis; the case
+    stores the arrays."""
+    kind = draw(st.sampled_from(["neigh", "neigh", "weight"]))
+    # axis and sizes from the seeded generator (every boundary value populated in every run, see bulk_st)
+    rng = np.random.default_rng(draw(st.integers(0, 2 ** 32 - 1)))
+    axis = str(rng.choice(["rows", "frames", "cn", "cn"]))
+    if axis == "rows":
+        N = int(rng.choice(ROWS_B))
+        F = int(rng.integers(1, 4))
+        cmax = min(N - 1, int(rng.choice([0, 2, 6, 12])))
+        cn_pool = list(range(0, cmax + 1))
+    elif axis == "frames":
+        N = int(rng.integers(1, 6))
+        F = int(rng.choice(FRAMES_B))
+        cn_pool = list(range(0, N))
+    else:
+        cb = int(rng.choice(CN_B))
+        N = cb + 1 + int(rng.integers(0, 4))
+        F = int(rng.integers(1, 3))
+        cn_pool = [0, 1, cb - 2, cb - 1, cb, cb, cb] + ([cb + 1] if cb + 1 <= N - 1 else [])
+    frames = []
+    for _ in range(F):
+        cn = rng.choice(cn_pool, N)
+        if axis == "cn" and rng.random() < 0.7:
+            cn[rng.integers(0, N)] = max(cn_pool)          # the boundary value is the frame maximum
+        order = rng.permutation(N) + 1 if rng.random() < 0.7 else np.arange(1, N + 1)
+        ent = []
+        for i in range(N):
+            if kind == "neigh":
+                others = rng.permutation(N - 1)[:cn[i]] + 1
+                ent.append(np.where(others >= i + 1, others + 1, others).astype(np.int64))      # never the id itself
+            else:
+                ent.append(np.round(rng.random(cn[i]) * float(rng.choice([1.0, 50.0, 1e4])), 6))
+        frames.append({"order": order.astype(np.int64), "ent": ent})
+    # Nmax per frame: the default (200), the boundary values, around this frame's largest cn
+    nmaxs = []
+    for fr in frames:
+        mc = max(len(e) for e in fr["ent"])
+        nmaxs.append(draw(st.sampled_from(["default", "default", 1, max(1, mc - 1), max(1, mc), mc + 1] + NMAX_B)))
+    if axis == "frames" and draw(st.booleans()):
+        nmaxs = [nmaxs[0]] * F       # the documented loop: the same Nmax for every frame
+    return {"axis": axis, "kind": kind, "N": N, "frames": frames, "nmaxs": nmaxs,
+            "header": draw(st.sampled_from(N_HEADERS if kind == "neigh" else W_HEADERS)),
+            "fmt": draw(st.sampled_from(W_FORMATS)), "style": draw(text_style_st()),
+            "kw": draw(st.booleans())}
+
+
+def check_reader_bulk(case):
+    N, kind, style = case["N"], case["kind"], case["style"]
+    enc = []
+    for fr in case["frames"]:
+        rows = {}
+        for i, e in enumerate(fr["ent"]):
+            rows[i + 1] = [str(int(v)) for v in e] if kind == "neigh" else [case["fmt"] % float(v) for v in e]
+        enc.append({"header": case["header"], "order": [int(x) for x in fr["order"]], "rows": rows})
+    name = "bulk.dat"
+    write_text(name, neigh.encode_list_file(enc, style))
+    seen = text_as_seen(name, style.get("newline"))
+    F = len(enc)
+    offs = neigh.frame_offsets(seen, N, F)
+    kept = []
+    cn_varies = False
+    tags = ["axis-" + case["axis"], "kind-" + kind] + style_tags(style)
+    with open(name, "r", encoding="utf-8", newline=style.get("newline")) as f:
+        for k, fr in enumerate(enc):
+            nm = case["nmaxs"][k]
+            if nm == "default":
+                got = read_neighbors(f, N)
+                nmax = 200
+            elif case["kw"]:
+                got = read_neighbors(f=f, nparticle=N, Nmax=int(nm))
+                nmax = int(nm)
+            else:
+                got = read_neighbors(f, N, int(nm))
+                nmax = int(nm)
+            what = f"bulk read of frame {k} of {F} ({N} rows, Nmax={nmax})"
+            compare_read(what, got, fr["rows"], N, nmax, kind == "neigh")
+            kept.append((got, np.array(got, copy=True), what))
+            cns = [len(e) for e in fr["rows"].values()]
+            mc = max(cns)
+            cn_varies = cn_varies or len(set(cns)) > 1
+            if mc in CN_B:
+                tags.append(f"cn-boundary-{mc}")
+            tags.append("truncated" if nmax < mc else ("Nmax=maxcn" if nmax == mc else ("default-Nmax" if nm == "default" else "Nmax>maxcn")))
+            if nm != "default" and nmax in NMAX_B[2:]:
+                tags.append(f"Nmax-boundary-{nmax}")
+            if nmax == 1:
+                tags.append("Nmax=1")
+        rest = f.read()
+        require(not f.closed, "the reader closed the caller's file handle")
+    require(rest == seen[offs[F]:], lambda: f"after reading all {F} frames {len(rest)} characters are left in the file, "
+            f"expected the {len(seen) - offs[F]} characters after the last frame")
+    for got, copy, what in kept:
+        require(np.array_equal(np.asarray(got), copy), f"the array returned by the {what} changed during later reads")
+    if N in ROWS_B[2:]:
+        tags.append(f"rows-boundary-{N}")
+    if F in FRAMES_B:
+        tags.append(f"frames-boundary-{F}")
+    if F >= 2:
+        tags.append("kept-results-rechecked")
+    return {"nontrivial": bool(cn_varies and F >= 2), "tags": sorted(set(tags))}
+
+
+def describe_reader_bulk(case):
+    return {"axis": case["axis"], "kind": case["kind"], "N": case["N"], "F": len(case["frames"]), "nmaxs": case["nmaxs"][:6],
+            "style": case["style"], "header": case["header"],
+            "cn_frame0": [len(e) for e in case["frames"][0]["ent"]][:12]}
+
+
 # ============================================================================= facets
+
+BUD = 240.0     # wall-clock budget per shard in the quick tier (the default 60 s truncates facets on a loaded machine)
 
 FACETS = [
     Facet("nnearest", writer_case_st("nn"), check_writer, quick=600, thorough=60000, describe=describe_writer, shards_quick=4,
-          rule="Nnearests, N_nn 1..N-1 (N-1 over-weighted); non-trivial = N_nn >= 2"),
+          quick_budget_s=BUD, rule="Nnearests, N_nn 1..N-1 (N-1 over-weighted); non-trivial = N_nn >= 2"),
     Facet("nnearest_large", large_nn_st(), check_writer, quick=40, thorough=4000, describe=describe_writer, shards_quick=2,
+          quick_budget_s=BUD,
           rule="Nnearests on seeded random gases of 150..400 particles, N_nn mostly in [N/5, 4N/5] (partition index "
                "beyond numpy's small-array path); non-trivial = N_nn >= 2"),
     Facet("cutoff", writer_case_st("cut"), check_writer, quick=600, thorough=60000, describe=describe_writer, shards_quick=4,
+          quick_budget_s=BUD,
           rule="cutoffneighbors, r_cut mid-gap of the reference distances (1/8 anywhere); non-trivial = some cn >= 2 and cn "
                "differ within a frame"),
     Facet("cutoff_type", writer_case_st("type"), check_writer, quick=600, thorough=60000, describe=describe_writer,
-          shards_quick=4, rule="cutoffneighbors_particletype, K 1..3, independent matrix entries; non-trivial as cutoff"),
+          quick_budget_s=BUD,
+          shards_quick=4, rule="cutoffneighbors_particletype, K 1..5, independent matrix entries; non-trivial as cutoff"),
     Facet("sheared", writer_case_st("any", nmax=24, frames=(2, 4), sheared=True), check_writer, quick=300, thorough=30000,
-          describe=describe_writer, shards_quick=2,
+          describe=describe_writer, shards_quick=2, quick_budget_s=BUD,
           rule="all three writers on multi-frame triclinic trajectories whose tilt factors differ per frame (same edge "
                "lengths): every frame is compared with the reference for ITS cell matrix; non-trivial as the writer's facet"),
+    Facet("size_boundary", bulk_st(SIZES_QUICK, ["gas", "gas", "clusters"], many_frames=True), check_writer,
+          quick=200, thorough=6000, describe=describe_writer, shards_quick=4, quick_budget_s=BUD,
+          rule="all three writers at particle numbers around block sizes (31..33, 49..51, 63..65, 99..101, 127..130, 170, "
+               "199..201, 255..258), N_nn and cut-off list lengths around the same sizes, 31..129 frames per file of tiny "
+               "frames; non-trivial as the writer's facet"),
+    Facet("size_boundary_large", bulk_st(SIZES_THOROUGH, ["gas", "gas", "clusters"]), check_writer,
+          quick=0, thorough=320, describe=describe_writer, thorough_budget_s=1500.0,
+          rule="thorough tier only: particle numbers 499..501, 511..513, 999..1001, 1023..1025"),
+    Facet("inhomogeneous", bulk_st((150, 400), ["clusters", "clusters", "droplet", "droplet", "void", "slab"], dims=(2, 2, 3),
+                                   writers=("nn", "nn", "cut", "type")), check_writer,
+          quick=160, thorough=8000, describe=describe_writer, shards_quick=4, quick_budget_s=BUD,
+          rule="all three writers on strongly inhomogeneous systems of 150..400 particles (clusters in a dilute background, "
+               "voids, slabs and droplets with free surfaces; 2D / 3D, orthogonal / triclinic / axis-permuted), N_nn mostly "
+               "1..16, cut-offs at quantiles of the pair-distance distribution; non-trivial as the writer's facet"),
     Facet("crisp", crisp_st(), check_crisp, quick=600, thorough=40000, describe=describe_crisp, shards_quick=2,
+          quick_budget_s=BUD,
           rule="integer coordinates, power-of-two cells (dyadic tilts), integer cut-offs with planted pairs at distance "
                "r, r+1, r-1; exact oracle; non-trivial = a pair exactly on the boundary / an exact tie (N-nearest)"),
     Facet("reader_machine", machine=ReaderMachine, quick=400, thorough=20000, steps=10, describe=describe_machine,
+          quick_budget_s=BUD,
           shards_quick=2, rule="histories of read(Nmax)/reopen/read-rest over 1-2 open files; non-trivial = cn differ "
                                "within a read frame, some read truncated, >= 2 consecutive frames from one handle"),
+    Facet("reader_bulk", reader_bulk_st(), check_reader_bulk, quick=240, thorough=12000, describe=describe_reader_bulk,
+          shards_quick=2, quick_budget_s=BUD,
+          rule="synthetic files with rows per frame / frames per file / entries per row at block-size boundaries, read "
+               "in sequence from one handle with Nmax at the default, 1, and the boundaries; LF / CRLF / tabs / blank "
+               "tail; every returned array re-compared at the end; non-trivial = cn differ within a frame and >= 2 "
+               "frames read"),
 ]
